@@ -598,6 +598,9 @@ def rule_swaps_repoint_the_incumbent(eng, rep, rule="C17-5b.a-swap-of-two-record
             need = {(a, b), (b, a)}
             if need <= maps:
                 rep.ok(rule, site, "records %s and %s are exchanged and kopt is re-pointed %s -> %s and %s -> %s" % (a, b, a, b, b, a))
+            elif any(d["kind"] == "stmt" and isinstance(d["ast"], ast.Assign) and len(d["ast"].targets) == 1 and isinstance(d["ast"].targets[0], ast.Attribute)
+                     and d["ast"].targets[0].attr == "kopt" and isinstance(d["ast"].value, (ast.IfExp, ast.Subscript, ast.Call)) for _k, d in cfg.g.nodes(data=True)):
+                rep.unknown(rule, site, "kopt is re-pointed by an expression form (conditional expression / look-up) this rule does not interpret")
             else:
                 miss = sorted(need - maps)
                 rep.bad(rule, site, "%s|incumbent-not-re-pointed|%s" % (m.fid, ",".join("%s->%s" % x for x in miss)),
